@@ -545,6 +545,185 @@ func ruleKindGuardsReader(r *Run) {
 		}
 	}
 	r.AtLeast(rule, "reads of kind-specific answer fields", n, 5)
+	r.AtLeast(rule, "consumptions of kind-specific answer lists", r.kindListConsumers(root, field2key), 5)
+}
+
+// kindListConsumers: reading the list is not enough — what is done with its elements must be
+// possible for every kind the specification gives the list for. For each read of a
+// kind-specific list of the answer, the effects that consume its elements (stores, appends,
+// calls) are collected, following the list through phis (a list replaced by nil on a
+// kind-dependent branch is restricted to the other branches' kinds); at least one consuming
+// effect must be reachable for all the kinds of the specification.
+func (r *Run) kindListConsumers(root *ssa.Function, field2key map[string]string) int {
+	const rule = "R11b.read"
+	n := 0
+	for fn := range r.P.CG.Reachable([]*ssa.Function{root}, nil) {
+		ks := kindSets(fn)
+		kindsAt := func(b *ssa.BasicBlock, restr map[kindVar]kset, need []string) (bool, string) {
+			vars := map[kindVar]bool{}
+			for v := range ks[b] {
+				vars[v] = true
+			}
+			for v := range restr {
+				vars[v] = true
+			}
+			for v := range vars {
+				for _, k := range need {
+					inBlock := true
+					if set, ok := ks[b][v]; ok {
+						inBlock = set[k]
+					}
+					inRestr := true
+					if set, ok := restr[v]; ok {
+						inRestr = set[k]
+					}
+					if !inBlock || !inRestr {
+						return false, fmt.Sprintf("not for kind %s of %s.Kind", k, shortType(v.base.Type()))
+					}
+				}
+			}
+			return true, ""
+		}
+		for _, ins := range allInstrs(fn) {
+			var fv *types.Var
+			var owner string
+			var lists []ssa.Value
+			switch x := ins.(type) {
+			case *ssa.FieldAddr:
+				fv, owner = fieldOf(x), namedOf(x.X.Type())
+				for _, ref := range *x.Referrers() {
+					if ld, ok := ref.(*ssa.UnOp); ok && ld.Op == token.MUL {
+						lists = append(lists, ld)
+					}
+				}
+			case *ssa.Field:
+				fv, owner = fieldOfVal(x), namedOf(x.X.Type())
+				lists = append(lists, x)
+			}
+			if fv == nil || owner != introPkg+".IntrospectionQueryFullType" {
+				continue
+			}
+			key, ok := field2key[fv.Name()]
+			if !ok {
+				continue
+			}
+			type cons struct {
+				ins   ssa.Instruction
+				restr map[kindVar]kset
+			}
+			var consumers []cons
+			seen := map[ssa.Value]bool{}
+			var elemUses func(v ssa.Value, restr map[kindVar]kset, depth int)
+			elemUses = func(v ssa.Value, restr map[kindVar]kset, depth int) {
+				if depth > 6 || v.Referrers() == nil {
+					return
+				}
+				for _, ref := range *v.Referrers() {
+					switch x := ref.(type) {
+					case *ssa.FieldAddr, *ssa.Field, *ssa.UnOp, *ssa.IndexAddr, *ssa.MakeInterface, *ssa.ChangeType, *ssa.Slice:
+						elemUses(x.(ssa.Value), restr, depth+1)
+					case *ssa.Store:
+						if x.Val == v {
+							if al, ok := x.Addr.(*ssa.Alloc); ok && !al.Heap || ok && al.Comment != "" && al.Parent() == fn {
+								// the range variable: a local copy of the element
+								elemUses(al, restr, depth+1)
+								continue
+							}
+							consumers = append(consumers, cons{x, restr})
+						}
+					case *ssa.MapUpdate:
+						consumers = append(consumers, cons{x, restr})
+					case ssa.CallInstruction:
+						if b, ok := x.Common().Value.(*ssa.Builtin); ok && b.Name() == "len" {
+							continue
+						}
+						consumers = append(consumers, cons{x, restr})
+					}
+				}
+			}
+			var follow func(l ssa.Value, restr map[kindVar]kset, depth int)
+			follow = func(l ssa.Value, restr map[kindVar]kset, depth int) {
+				if seen[l] || depth > 4 || l.Referrers() == nil {
+					return
+				}
+				seen[l] = true
+				for _, ref := range *l.Referrers() {
+					switch x := ref.(type) {
+					case *ssa.Phi:
+						// the kinds under which the phi still carries the list
+						nr := map[kindVar]kset{}
+						for v, set := range restr {
+							nr[v] = set
+						}
+						carried := map[kindVar]kset{}
+						for i, e := range x.Edges {
+							if unwrap(e) != l {
+								continue
+							}
+							pred := x.Block().Preds[i]
+							for v, set := range ks[pred] {
+								if carried[v] == nil {
+									carried[v] = kset{}
+								}
+								for k := range set {
+									carried[v][k] = true
+								}
+							}
+						}
+						for v, set := range carried {
+							if old, ok := nr[v]; ok {
+								inter := kset{}
+								for k := range set {
+									if old[k] {
+										inter[k] = true
+									}
+								}
+								nr[v] = inter
+							} else {
+								nr[v] = set
+							}
+						}
+						follow(x, nr, depth+1)
+					case *ssa.IndexAddr:
+						if x.X == l {
+							elemUses(x, restr, 0)
+						}
+					case *ssa.Range:
+						elemUses(x, restr, 0)
+					case ssa.CallInstruction:
+						if b, ok := x.Common().Value.(*ssa.Builtin); ok && b.Name() == "len" {
+							continue
+						}
+						consumers = append(consumers, cons{x, restr})
+					case *ssa.Store:
+						if x.Val == l {
+							consumers = append(consumers, cons{x, restr})
+						}
+					}
+				}
+			}
+			for _, l := range lists {
+				follow(l, map[kindVar]kset{}, 0)
+			}
+			if len(consumers) == 0 {
+				continue
+			}
+			n++
+			good, why := false, ""
+			for _, c := range consumers {
+				if ok, w := kindsAt(c.ins.Block(), c.restr, kindsOf[key]); ok {
+					good = true
+					break
+				} else if why == "" {
+					why = fmt.Sprintf("e.g. the effect at %s is %s", r.P.pos(c.ins.Pos()), w)
+				}
+			}
+			r.Check(good, rule, fnName(fn), "consume "+fv.Name()+" of the answer", r.P.pos(ins.Pos()),
+				fmt.Sprintf("%d effect(s) consume the list's elements; at least one is reachable for every kind the specification answers `%s` for", len(consumers), key),
+				"every effect that consumes the elements of `"+key+"` is limited to fewer kinds than "+fmt.Sprint(kindsOf[key])+" ("+why+"): for the other kinds the service's answer is read and then dropped — e.g. an interface that implements another interface loses its `implements` clause")
+		}
+	}
+	return n
 }
 
 // switchCases extracts `switch <tag> { case "c": … }` lowered to an If chain on one tag value.
